@@ -544,7 +544,37 @@ def r11(ctx):
                            lambda f, rhs: f.key(rhs).endswith('.second') or '.second}' in f.key(rhs)[-12:], 3)
 
 
+def r12(ctx):
+    ctx.rule('C13.R12', 'an optional name is tested on itself: in message.cpp every "x.length() > 0 ? y.c_str() : nullptr" (pass '
+             'the name if there is one, otherwise none) tests the string it passes (x is y) - a condition without field name '
+             'refers to the first field of the kind, which the null pointer selects; an empty string selects a field '
+             'without name', minimum=1)
+    fb = ctx.fb
+    n = 0
+    seen = set()
+    for fn in fb.functions:
+        if not fn.relfile.startswith('src/lib/ebus/message.') or not fn.nodes or (fn.name, fn.sig) in seen:
+            continue
+        seen.add((fn.name, fn.sig))
+        for x, v in sorted(fn.nodes.items()):
+            if v['k'] != 'ConditionalOperator':
+                continue
+            t, e = fn.key(v['then']), fn.key(v['else'])
+            if not (t.endswith('.c_str()') and e == '#0' or e.endswith('.c_str()') and t == '#0'):
+                continue
+            n += 1
+            ctx.touch(fn)
+            passed = (t if t.endswith('.c_str()') else e)[:-len('.c_str()')]
+            ck = fn.key(v['cond'])
+            ok = ck.startswith('(%s.length() ' % passed) or ck.startswith('(%s.size() ' % passed) or ck in ('!%s.empty()' % passed, '%s.empty()' % passed) or \
+                ck.startswith('(!%s.empty()' % passed)
+            ctx.ob('C13.R12', fn, x, ok, 'optional name in %s' % fn.name.split('::')[-1], 'passes %s under %s' % (passed, ck))
+    if n < 1:
+        raise AnalysisBroken('C13.R12: no optional name argument found in message.cpp')
+
+
 def run(ctx):
+    r12(ctx)
     r11(ctx)
     tolower_rule(ctx, 'C13.R10')
     r9(ctx)
